@@ -1,6 +1,7 @@
 import Model.Pool
 import Model.Pipe
 import Proofs.C17Pipe
+import Proofs.C17Deb
 /-!
 # C17 — pools stay within bounds; a session always closes (property theorems)
 
@@ -370,5 +371,162 @@ theorem C17_hs_buffered_plain_send_blocks :
 example : ∃ s, Hs.run Hs.St.init [.ctxFire, .cLeave, .cRet, .wRet, .wEsc, .rErr, .rEsc] = some s ∧
     s.r = .done ∧ s.w = .done := by
   refine ⟨_, rfl, ?_, ?_⟩ <;> decide
+
+end C17
+
+namespace C17
+/-! ### refreshDebouncer with its broadcaster: every refreshNow() waiter is released
+
+FULL PROPERTY (not a theorem of the code that exists): for every schedule of refreshNow / debounce / stop calls and
+flusher steps, once stop() has been called every waiter ever handed a channel by refreshNow() is released (gets the
+result of a refresh or a closed channel) after at most three further steps of the flusher — so no goroutine sitting in
+Session.refreshRing outlives Session.Close.
+
+The unchanged code violates it for a refreshNow() that runs AFTER the flusher has returned (`late`): refreshNow does not
+look at `stopped`, creates a broadcaster nobody will ever stop and hands out a channel that is never written nor closed
+(`C17_cex_waiter_after_exit`). With that excluded it is a theorem (`C17_waiters_released_partial`); for the proposed
+repair (refreshNow returns a closed channel once `stopped`) it holds without the exclusion (`C17_waiters_released_fixed`). -/
+
+open Pool C17Deb in
+/-- **every waiter registered before the flusher returned is released**: in every state reachable under any schedule
+    (0.. waiters queued before / while a refresh runs, stop at any point, the select taking any ready case), once
+    `stopped` is set the flusher has at most three steps of its own left (refreshFn returns; the select takes the closed
+    quit channel; the critical section) after which it has exited and EVERY waiter registered so far is released —
+    provided no refreshNow() ran after the flusher had returned -/
+theorem C17_waiters_released_partial (as : List WAct) (d : WDeb) (hr : wrun WDeb.init as = some d)
+    (hs : d.stopped = true) (hl : d.late = false) :
+    ∃ bs d', bs.length ≤ 3 ∧ (∀ b ∈ bs, b = .wake .quit ∨ b = .lock ∨ b = .refreshDone) ∧
+      wrun d bs = some d' ∧ d'.f = .exited ∧ ∀ w, w < d.nextW → d'.released w := by
+  have inv := winv_run false as _ d (winv_init false) hr
+  exact drain false d inv hs (fun he => inv.noPend he (Or.inr hl))
+
+open Pool C17Deb in
+/-- the same for the proposed repair of refreshNow (`if d.stopped { return a closed channel }`), for ALL schedules -/
+theorem C17_waiters_released_fixed (as : List WAct) (d : WDeb) (hr : wrunG true WDeb.init as = some d)
+    (hs : d.stopped = true) :
+    ∃ bs d', bs.length ≤ 3 ∧ (∀ b ∈ bs, b = .wake .quit ∨ b = .lock ∨ b = .refreshDone) ∧
+      wrunG true d bs = some d' ∧ d'.f = .exited ∧ ∀ w, w < d.nextW → d'.released w := by
+  have inv := winv_run true as _ d (winv_init true) hr
+  exact drain true d inv hs (fun he => inv.noPend he (Or.inl rfl))
+
+open Pool C17Deb in
+/-- a released waiter stays released along every continuation (both variants of refreshNow) -/
+theorem C17_released_stable (fixed : Bool) : ∀ (bs : List WAct) (d d' : WDeb) (w : Nat),
+    wrunG fixed d bs = some d' → d.released w → d'.released w
+  | [], d, d', w, hr, h => by simp [wrunG] at hr; subst hr; exact h
+  | b :: bs, d, d', w, hr, h => by
+    simp only [wrunG] at hr
+    split at hr
+    · rename_i d1 hs1
+      have m := released_mono fixed d d1 b hs1
+      exact C17_released_stable fixed bs d1 d' w hr (by
+        rcases h with a | a
+        · exact Or.inl (m.1 w a)
+        · exact Or.inr (m.2.1 w a))
+    · simp at hr
+
+open Pool in
+/-- non-vacuity, and the schedule of the seeded change on the code that exists: a refresh is running (waiter 0), a
+    second one is asked for (waiter 1), stop(), the running refresh returns; whichever ready case the select takes,
+    both waiters end up released -/
+example : ∃ d, wrun WDeb.init [.refreshNow, .wake .now, .lock, .refreshNow, .stop, .refreshDone, .wake .quit, .lock] = some d ∧
+    d.served = [0] ∧ d.shut = [1] ∧ d.f = .exited := by
+  refine ⟨_, rfl, ?_, ?_, ?_⟩ <;> decide
+
+example : ∃ d, Pool.wrun Pool.WDeb.init [.refreshNow, .wake .now, .lock, .refreshNow, .stop, .refreshDone, .wake .now, .lock] = some d ∧
+    d.served = [0] ∧ d.shut = [1] ∧ d.f = .exited := by
+  refine ⟨_, rfl, ?_, ?_, ?_⟩ <;> decide
+
+open Pool in
+/-- counterexample to the full property on the code that exists: stop(); the flusher returns; refreshNow() — waiter 0
+    is never released, along EVERY continuation -/
+theorem C17_cex_waiter_after_exit :
+    ∃ d, wrun WDeb.init [.stop, .wake .quit, .lock, .refreshNow] = some d ∧ d.stopped = true ∧ d.f = .exited ∧
+      d.late = true ∧ 0 < d.nextW ∧ ∀ (bs : List WAct) (d' : WDeb), wrun d bs = some d' → ¬ d'.released 0 := by
+  refine ⟨_, rfl, by decide, by decide, by decide, by decide, ?_⟩
+  have key : ∀ (bs : List WAct) (t t' : WDeb), t.f = .exited → 0 ∈ ls t.pend → 0 ∉ t.served → 0 ∉ t.shut →
+      wrun t bs = some t' → ¬ t'.released 0 := by
+    intro bs
+    induction bs with
+    | nil =>
+      intro t t' _ _ h3 h4 hr
+      simp [wrun, wrunG] at hr; subst hr
+      intro h; rcases h with a | a
+      · exact h3 a
+      · exact h4 a
+    | cons b bs ih =>
+      intro t t' h1 h2 h3 h4 hr
+      simp only [wrun, wrunG] at hr
+      split at hr
+      · rename_i t1 ht1
+        have : t1.f = .exited ∧ 0 ∈ ls t1.pend ∧ 0 ∉ t1.served ∧ 0 ∉ t1.shut := by
+          cases b with
+          | refreshNow =>
+            simp only [wstepG, wRefreshNow, Bool.false_and, Bool.false_eq_true, if_false] at ht1
+            injection ht1 with ht1; subst ht1
+            split
+            · rename_i hp; simp [hp, ls] at h2
+            · rename_i l hp
+              simp only [hp, ls, Option.getD_some] at h2
+              exact ⟨h1, by simp [ls, h2], h3, h4⟩
+          | debounce =>
+            simp only [wstepG] at ht1
+            split at ht1 <;> (injection ht1 with ht1; subst ht1; exact ⟨h1, h2, h3, h4⟩)
+          | wake x => simp [wstepG, h1] at ht1
+          | lock => simp [wstepG, h1] at ht1
+          | refreshDone => simp [wstepG, h1] at ht1
+          | stop =>
+            simp only [wstepG] at ht1; injection ht1 with ht1; subst ht1; exact ⟨h1, h2, h3, h4⟩
+        exact ih t1 t' this.1 this.2.1 this.2.2.1 this.2.2.2 hr
+      · simp at hr
+  intro bs d' hr
+  exact key bs _ d' (by decide) (by decide) (by decide) (by decide) hr
+
+open Pool in
+/-- What the check is there to catch (the family "the flusher leaves through its quit case without stopping the
+    pending broadcaster"): a refresh is running, a second one is asked for (waiter 1, registered BEFORE stop), stop(),
+    the refresh returns, the select takes the quit case — waiter 1 is never released, along every continuation. -/
+theorem C17_quit_return_strands_waiter :
+    ∃ d, wrunQuitReturn WDeb.init [.refreshNow, .wake .now, .lock, .refreshNow, .stop, .refreshDone, .wake .quit] = some d ∧
+      d.stopped = true ∧ d.f = .exited ∧ d.late = false ∧ 1 < d.nextW ∧
+      ∀ (bs : List WAct) (d' : WDeb), wrunQuitReturn d bs = some d' → ¬ d'.released 1 := by
+  refine ⟨_, rfl, by decide, by decide, by decide, by decide, ?_⟩
+  have key : ∀ (bs : List WAct) (t t' : WDeb), t.f = .exited → 1 ∈ ls t.pend → 1 ∉ t.served → 1 ∉ t.shut →
+      wrunQuitReturn t bs = some t' → ¬ t'.released 1 := by
+    intro bs
+    induction bs with
+    | nil =>
+      intro t t' _ _ h3 h4 hr
+      simp [wrunQuitReturn] at hr; subst hr
+      intro h; rcases h with a | a
+      · exact h3 a
+      · exact h4 a
+    | cons b bs ih =>
+      intro t t' h1 h2 h3 h4 hr
+      simp only [wrunQuitReturn] at hr
+      split at hr
+      · rename_i t1 ht1
+        have : t1.f = .exited ∧ 1 ∈ ls t1.pend ∧ 1 ∉ t1.served ∧ 1 ∉ t1.shut := by
+          cases b with
+          | refreshNow =>
+            simp only [wstepQuitReturn, wstep, wstepG, wRefreshNow, Bool.false_and, Bool.false_eq_true, if_false] at ht1
+            injection ht1 with ht1; subst ht1
+            split
+            · rename_i hp; simp [hp, ls] at h2
+            · rename_i l hp
+              simp only [hp, ls, Option.getD_some] at h2
+              exact ⟨h1, by simp [ls, h2], h3, h4⟩
+          | debounce =>
+            simp only [wstepQuitReturn, wstep, wstepG] at ht1
+            split at ht1 <;> (injection ht1 with ht1; subst ht1; exact ⟨h1, h2, h3, h4⟩)
+          | wake x => cases x <;> simp [wstepQuitReturn, wstep, wstepG, h1] at ht1
+          | lock => simp [wstepQuitReturn, wstep, wstepG, h1] at ht1
+          | refreshDone => simp [wstepQuitReturn, wstep, wstepG, h1] at ht1
+          | stop =>
+            simp only [wstepQuitReturn, wstep, wstepG] at ht1; injection ht1 with ht1; subst ht1; exact ⟨h1, h2, h3, h4⟩
+        exact ih t1 t' this.1 this.2.1 this.2.2.1 this.2.2.2 hr
+      · simp at hr
+  intro bs d' hr
+  exact key bs _ d' (by decide) (by decide) (by decide) (by decide) hr
 
 end C17
